@@ -53,6 +53,17 @@ pub mod pb {
 }
 
 /// What one simulated run did, as measured by the stubs and the interpreter.
+/// Per-worker heartbeat: bumped on every simulator event, read by the watchdog.  A run counts as hung only when it produces
+/// no event at all for the whole watchdog period -- a long but progressing run (a big frame in tiny pieces on a loaded
+/// machine) is not a hang.
+#[repr(align(64))]
+struct Beat(AtomicU64);
+static BEATS: [Beat; 64] = [const { Beat(AtomicU64::new(0)) }; 64];
+
+thread_local! {
+    static WORKER: std::cell::Cell<usize> = const { std::cell::Cell::new(63) };
+}
+
 thread_local! {
     /// When set, every `Obs` created on this thread keeps a readable log of its events (used only when a replay file is
     /// written or replayed; never during the search, and never part of the trace hash).
@@ -110,6 +121,7 @@ impl Obs {
         self.steps += 1;
         self.trace.byte(code);
         self.trace.u64(a);
+        BEATS[WORKER.with(|w| w.get())].0.fetch_add(1, Ordering::Relaxed);
         if let Some(l) = &mut self.log {
             if l.len() < 400 {
                 l.push((code, a));
@@ -399,12 +411,13 @@ impl<P: Property> Batch<P> {
                 let done = done.clone();
                 let me = self;
                 scope.spawn(move || {
-                    let mut last: Vec<(u64, u32)> = vec![(0, 0); watch.slots.len()];
+                    let mut last: Vec<((u64, u64), u32)> = vec![((0, 0), 0); watch.slots.len()];
                     while done.load(Ordering::Acquire) == 0 {
                         std::thread::sleep(std::time::Duration::from_millis(250));
                         for (w, slot) in watch.slots.iter().enumerate() {
                             let cur = slot.load(Ordering::Acquire);
-                            if cur != 0 && cur == last[w].0 {
+                            let beat = BEATS[w.min(62)].0.load(Ordering::Relaxed);
+                            if cur != 0 && (cur, beat) == last[w].0 {
                                 last[w].1 += 1;
                                 if last[w].1 as u64 >= watchdog_secs * 4 {
                                     let index = cur - 1;
@@ -412,7 +425,7 @@ impl<P: Property> Batch<P> {
                                     report_hang::<P>(me.seed, index, &s);
                                 }
                             } else {
-                                last[w] = (cur, 0);
+                                last[w] = ((cur, beat), 0);
                             }
                         }
                     }
@@ -428,6 +441,7 @@ impl<P: Property> Batch<P> {
                 // follows very deep (pipe world); that must not take the harness down
                 let builder = std::thread::Builder::new().name(format!("worker-{w}")).stack_size(BIG_STACK);
                 handles.push(builder.spawn_scoped(scope, move || {
+                    WORKER.with(|id| id.set(w.min(62)));
                     let slow_report = std::env::var_os("MINISIM_SLOW").is_some();
                     let mut agg = Aggregate::<P::S>::new();
                     loop {
